@@ -435,7 +435,7 @@ def run_kani_ob(build, ob, playback=False):
     shutil.rmtree(tmpd, ignore_errors=True)
     os.makedirs(tmpd)
     cmd = ["cargo", "kani", "-p", ob["pkg"], "--harness", ob["harness"], "--exact"] + KANI_FLAGS
-    cmd += ["--solver", ob.get("solver", "minisat"), "--default-unwind", str(ob.get("default_unwind", 70))]
+    cmd += ["--solver", ob.get("solver", "kissat"), "--default-unwind", str(ob.get("default_unwind", 70)), "--no-assertion-reach-checks"]
     if playback:
         cmd += ["-Z", "concrete-playback", "--concrete-playback=print"]
     rc, out, dt, to = run_cmd(cmd, build.repo, build.env(tmpd), ob.get("timeout", 900) * (2 if playback else 1),
@@ -581,3 +581,12 @@ def run_native_ob(build, ob):
         res["status"], res["reason"] = "undecided", "native test did not run (build error or anchor lost)"
         res["output_tail"] = out[-4000:]
     return res
+
+
+def native_typecheck(build):
+    """developer helper: compile all harness modules natively (cfg owlchess_verif_replay)"""
+    env = build.env()
+    env["RUSTFLAGS"] = "--cfg owlchess_verif_replay -Awarnings"
+    env["CARGO_TARGET_DIR"] = os.path.join(build.dir, "target-replay")
+    rc, out, dt, to = run_cmd(["cargo", "test", "--offline", "--workspace", "--lib", "--no-run"], build.repo, env, 900)
+    return rc, out
